@@ -1,14 +1,16 @@
 #!/bin/bash
 # usage: seedpar.sh <wave-dir> <prefix> <prop>...   runs seedwave.sh for the properties in up to 4 parallel universes
 # (tools/universe.sh make 1..4 first); copies the kept seeds back to /verif/seeded and the logs to /verif/build/seedpar/
+# env UNIVERSES="6 7 8" selects other universes
 W=$1; P=$2; shift 2
 mkdir -p /verif/build/seedpar
+US=(${UNIVERSES:-1 2 3 4})
 i=0
 for prop in "$@"; do
-  k=$(( i % 4 + 1 )); i=$((i+1))
+  k=${US[$(( i % ${#US[@]} ))]}; i=$((i+1))
   lists[$k]="${lists[$k]} $prop"
 done
-for k in 1 2 3 4; do
+for k in ${US[@]}; do
   [ -z "${lists[$k]}" ] && continue
   ( SEED_WT=/tmp/u/$k/confirm-wt /verif/tools/universe.sh run $k env SEED_WT=/tmp/u/$k/confirm-wt ./tools/seedwave.sh $W $P ${lists[$k]} > /verif/build/seedpar/u$k.log 2>&1
     for prop in ${lists[$k]}; do for n in 1 2; do d=/tmp/u/$k/verif/seeded/$prop-$P$n; [ -d $d ] && rm -rf /verif/seeded/$prop-$P$n && cp -r $d /verif/seeded/$prop-$P$n; done; done ) &
